@@ -114,6 +114,14 @@ Theorem attribute_values_fixed :
     c <> c_lt /\ c <> c_gt /\ c <> c_amp /\ c <> c_quot /\ c <> c_apos.
 Proof. exact literals_attr_safe. Qed.
 
+(* Well-formedness of the element structure: in every exception document, for every message, start and end tags
+   nest properly (declarations and empty-element tags skipped) and no tag is left open. *)
+Theorem exception_doc_well_nested :
+  forall t code loc msg,
+    In t exception_templates -> In code (opt_strs exception_codes) -> In loc (opt_strs exception_locators) ->
+    well_nested (tokenize (exception_doc t msg code loc)) = true.
+Proof. exact exception_documents_well_nested. Qed.
+
 (* Characters: if the message consists of characters that XML 1.0 can represent, so does the whole document
    (the templates and the entities add none).  The hypothesis is needed: *)
 Theorem exception_doc_xml_chars :
